@@ -517,6 +517,14 @@ func (e *Env) selectField(v Val, name string, src string) Val {
 	}
 	T := v.Typ
 	isPtr := false
+	if _, ok := T.Underlying().(*types.Interface); ok {
+		if gf, ok := vc.S.Ghosts[vc.typeName(T)+"."+name]; ok {
+			fam := "H_" + vc.typeName(T) + "." + name
+			srt := specSort(gf.GType)
+			vc.family(fam, "(Array Int "+srt+")")
+			return Val{L: []string{"(select " + vc.lookup(e.heap, fam) + " " + v.L[1] + ")"}, S: []string{srt}}
+		}
+	}
 	if pt, ok := T.Underlying().(*types.Pointer); ok {
 		T = pt.Elem()
 		isPtr = true
@@ -774,6 +782,21 @@ func (e *Env) evalCall(t *ast.CallExpr) Val {
 			}
 		}
 		e.errf("len/cap of %s", vc.typeName(v.Typ))
+		return intVal("0")
+	case "elems":
+		// elems(s): the backing array of slice s as a sequence indexed by absolute position (s.off + i)
+		v := arg(0)
+		if v.Typ != nil {
+			if st, ok := v.Typ.Underlying().(*types.Slice); ok && !vc.flatStruct(st.Elem()) {
+				sh := vc.shape(st.Elem())
+				if len(sh) == 1 {
+					fam := "E_" + vc.typeName(st.Elem())
+					vc.family(fam, famSortFor(sh[0].Sort, 2))
+					return Val{L: []string{"(select " + vc.lookup(e.heap, fam) + " " + v.L[0] + ")"}, S: []string{"(Array Int " + sh[0].Sort + ")"}}
+				}
+			}
+		}
+		e.errf("elems() needs a slice of scalar elements")
 		return intVal("0")
 	case "has":
 		m, k := arg(0), arg(1)
